@@ -21,6 +21,13 @@ def main(argv=None):
     ck.ob("server.BaseWSGIServer.__init__/frame:application-not-rebound-after-the-installation-point", "discharged" if ok else "undecided", backend="ast",
           clause="after `if map is None:` the local `application` is not assigned again and is what is stored in self.application",
           detail=None if ok else {"reason": "the tail of the constructor re-binds `application` or does not store it; the segment contract does not cover that"})
+    # the switch that turns the clearing on must mean what the documentation says in every accepted spelling (finite table on the real Adjustments)
+    rep = ck.native("boolean_spellings", {"repo_root": ck.repo.root}, timeout=600, module="C20")
+    bad = [f for f in rep.get("failures", []) if f.get("option") in ("clear_untrusted_proxy_headers", "log_untrusted_proxy_headers")]
+    ck.finite.append({"label": "exhaustive-finite", "table": "documented switches incl. clear_untrusted_proxy_headers: 21 keyword spellings and --x / --no-x give the documented boolean",
+                      "cases": rep.get("total"), "failures": bad})
+    if bad:
+        ck.fail("adjustments/finite:boolean_spellings", "case:" + repr(bad[0])[:120], "finite table boolean_spellings: %s" % (bad[0],), replay={"case": bad[0], "label": "exhaustive-finite"}, reproduced=True)
     ck.trusted.extend(["environ is an arbitrary str->str mapping containing REMOTE_ADDR; the application is demonic (its received environ is snapshotted)",
                        "frame obligation: every write to environ on this path is a pop of one of the six HTTP_<proxy header> keys, so keys other than those checked are untouched too",
                        "pyvc, cvc5/z3"])
